@@ -13,7 +13,7 @@ PROP = {
     ],
     "harnesses": [
         {"name": "fftw", "src": "fftw.cpp", "flags": ["-O1", "-g"], "libs": ["-lfftw3", "-ldl"], "modes": ["x"], "driver": "mmdrv_fft",
-         "programs": {"quick": 16000, "thorough": 480000}},
+         "programs": {"quick": 16000, "thorough": 720000}},
     ],
     "trusted_base": TRUSTED_COMMON + [
         "FFTW's guru interface contract (GuruPost in MultiModel/Fftw.lean): after fftw_execute_dft every output location holds sum_n in[n,b]*prod_d w(N_d, sign*j_d*n_d) of the pre-state and no other location changes (FFTW_PRESERVE_INPUT); validated numerically against an O(N^2) reference in every run",
